@@ -104,7 +104,10 @@ where
 
         // Rotate any desugared modifiers to the end of the list
         let modifiers = ["inv", "omit_fwd", "omit_inv"];
-        while modifiers.contains(&elements[0]) {
+        for _ in 0..elements.len() {
+            if !modifiers.contains(&elements[0]) {
+                break;
+            }
             elements.rotate_left(1);
         }
 
